@@ -23,6 +23,12 @@ Streams
       and a structure whose atoms were all deleted (tables kept); default and explicit zero offsets, empty identity map
       (no binding is valid).  Extending an empty structure must give exactly other (plus self's cell and tables),
       extending by an empty one must change no atom and no term;
+  (W) the public spellings of the two arguments (op `extend_api`, model `Atoms.extendApi`): offsets as tuple / list /
+      numpy array of FOUR entries (the documented `(0,0,0,0)`; other with and without impropers) or five; identity maps
+      as dict / OrderedDict / MappingProxyType with python or numpy integers, with atoms counted from the end (negative
+      keys and values), two spellings of one key, and - rejection - an index just outside [-n, n): IndexError with
+      self left exactly as it was.  The oracle brings the map to plain indices itself and then applies the normal
+      oracle;
   (K) known finding, reproduced on every run: default-offset extends in which exactly ONE kind breaks the
       compatibility clause of the Lean theorem `extend_resolves` (self uses ids of that kind beyond its own coefficient
       table - no table, or a short one - while other brings a table; or self has atom types but no pair-coefficient
@@ -49,7 +55,9 @@ RULE = ("pairs (self, other) of random consistent Atoms (1..3 atoms quick / 1..4
         "permuted listings, duplicate and palindromic terms; twice-extension with shared offsets; larger fragments "
         "(9..16 atoms, all but 2..4 mapped, unmapped indices both below and above 8, terms on the unmapped atoms); "
         "extra fields as fixed-width numpy string arrays with short values in self and long ones in other; zero-atom "
-        "structures (Atoms(), Atoms(cell), constructor with tables only, all atoms deleted) as self and as other. Text resolution of new ids is "
+        "structures (Atoms(), Atoms(cell), constructor with tables only, all atoms deleted) as self and as other; "
+        "public spellings: four-entry offsets, maps with negative / numpy integers in several mapping types, indices "
+        "just out of range (rejected, self untouched). Text resolution of new ids is "
         "demanded everywhere; where self uses ids beyond its own coefficient table (or has no pair table) while other "
         "brings one, the failure is attributed to the known finding coefficient-table-misaligned (a dedicated stream "
         "reproduces it on every run for one kind at a time), every other failure is reported untagged. Non-trivial = distinct input in which other "
@@ -472,6 +480,9 @@ def offsets_choice(rng, a, b, i):
     return [None, "zero", "types"][i % 3]
 
 
+EXTEND_TYPES_FAILED = []   # (input, result) of extend_types calls that raised while cases were prepared; reported in run()
+
+
 def make_case(a, b, mp, how):
     """-> list of (op dict, a-dump the op runs on, b, offsets list or None, map)"""
     if how is None:
@@ -480,6 +491,7 @@ def make_case(a, b, mp, how):
         return {"op": "extend", "a": a, "b": b, "offsets": [0, 0, 0, 0, 0], "map": mp}
     et = _extend_types(a, b)
     if "ok" not in et:
+        EXTEND_TYPES_FAILED.append(({"op": "extend_types", "a": a, "b": b}, et))
         return {"op": "extend", "a": a, "b": b, "offsets": None, "map": mp}
     return {"op": "extend", "a": et["ok"], "b": b, "offsets": et["offsets"], "map": mp, "via": "extend_types", "a0": a}
 
@@ -722,14 +734,139 @@ def oracle_twice(a, b, off, r1, r2):
     return None
 
 
+# ------------------------------------------------------------------------------------------------ public spellings (W)
+
+def _extend_api(aj, bj, offsets, mp, spell):
+    """a.extend(b, offsets=<container of 4 or 5>, structure_index_map=<mapping over python / numpy ints>)"""
+    side = {}
+
+    def f():
+        import collections
+        import types
+        import numpy as np
+        a = core.atoms_from_json(aj)
+        b = core.atoms_from_json(bj)
+        conv = (lambda i: np.int64(i)) if spell.get("ints") == "np" else int
+        m = {conv(k): conv(v) for k, v in mp}
+        if spell.get("map") == "ordered":
+            m = collections.OrderedDict(m.items())
+        elif spell.get("map") == "proxy":
+            m = types.MappingProxyType(m)
+        items0 = [(int(k), int(v)) for k, v in m.items()]
+        b0, a0 = core.canon_atoms(b), core.canon_atoms(a)
+        kw = {"structure_index_map": m}
+        if offsets is not None:
+            kw["offsets"] = {"tuple": tuple(offsets), "list": list(offsets),
+                             "array": np.array(offsets, dtype=int)}[spell.get("offsets", "tuple")]
+        try:
+            a.extend(b, **kw)
+        finally:
+            side["inputs_unchanged"] = (core.canon_atoms(b) == b0 and [(int(k), int(v)) for k, v in m.items()] == items0)
+            side["self_unchanged"] = (core.canon_atoms(a) == a0)
+        return core.canon_atoms(a)
+    return core.result_of(f), side
+
+
+def plain_map(mp, nb, na):
+    """independent normalisation: -> (list of [k, v] over plain indices with dict semantics) or None when an index is
+    outside [-n, n)"""
+    out = {}
+    for k, v in mp:
+        if not (-nb <= k < nb and -na <= v < na):
+            return None
+        out[k % nb if nb else k] = v % na if na else v
+    return [[k, v] for k, v in out.items()]
+
+
+def judge_api(inp, r, side):
+    """-> (untagged failure or None, known-finding failure or None)"""
+    a, b = inp["a"], inp["b"]
+    pm = plain_map(inp["map"], len(b["atoms"]), len(a["atoms"]))
+    if pm is None:
+        if r.get("err") != "error:index":
+            return "an identity map with an index outside the structures must raise IndexError, got %s" % (
+                r.get("err") or "a result"), None
+        if not side.get("self_unchanged", True):
+            return "a rejected identity map left self modified", None
+        return None, None
+    off = inp["offsets"]
+    if off is not None:
+        off = (list(off) + [0] * 5)[:5]
+    plain = {"op": "extend", "a": a, "b": b, "offsets": off, "map": pm}
+    return judge(plain, r, side)
+
+
+def api_cases(ctx):
+    rng = ctx.rng
+    out = []
+    for s in range(ctx.n(90, 700)):
+        na, nb = rng.randint(2, 7), rng.randint(2, 6)
+        with_imp = (s % 2 == 0)
+        a = gen.rand_atoms(rng, n=max(na, 4), kinds=KINDS, coeffs=True, pair=True, cell=False, term_density=rng.randint(1, 2))
+        b = gen.rand_atoms(rng, n=max(nb, 4) if with_imp else nb, kinds=KINDS if with_imp else ["bond", "angle"],
+                           coeffs=True, pair=True, cell=False, term_density=rng.randint(1, 2))
+        a, b = _norm(a), _norm(rename_labels(rng, b))
+        na, nb = len(a["atoms"]), len(b["atoms"])
+        mp = rand_map(rng, nb, na, pmap=0.9)
+        mode = ["neg", "off4", "neg+off4", "out", "dupkey", "plain"][s % 6]
+        spell = {"map": rng.choice(["dict", "ordered", "proxy"]), "ints": rng.choice(["py", "np"]),
+                 "offsets": rng.choice(["tuple", "list", "array"])}
+        if "neg" in mode or mode == "dupkey":
+            mp = [[k - nb if rng.random() < 0.6 else k, v - na if rng.random() < 0.6 else v] for k, v in mp]
+            if not mp:
+                mp = [[-1, -1]]
+        if mode == "dupkey" and mp:
+            k, v = mp[0]
+            other_spelling = k + nb if k < 0 else k - nb
+            free = [x for x in range(na) if x not in {vv % na for _, vv in mp}]
+            mp = mp + [[other_spelling, rng.choice(free) if free else v]]
+        if mode == "out":
+            which = rng.choice(["key", "value", "key-", "value-"])
+            bad = {"key": [nb, rng.randrange(na)], "value": [rng.randrange(nb), na],
+                   "key-": [-nb - 1, rng.randrange(na)], "value-": [rng.randrange(nb), -na - 1]}[which]
+            mp = [p for p in mp if p[0] % nb != bad[0] % nb][:2] + [bad]
+        if "off4" in mode:
+            offsets = [0, 0, 0, 0] if rng.random() < 0.6 else None
+            if offsets is None:
+                et = _extend_types(a, b)
+                if "ok" in et:
+                    a, offsets = et["ok"], et["offsets"][:4] if not b["terms"]["improper"] else et["offsets"]
+                else:
+                    offsets = [0, 0, 0, 0]
+        else:
+            offsets = rng.choice([None, [0, 0, 0, 0, 0], [0, 0, 0, 0]])
+        out.append((mode, {"op": "extend_api", "a": a, "b": b, "offsets": offsets, "map": mp, "spell": spell}))
+    return out
+
+
 # ------------------------------------------------------------------------------------------------ run
 
 def run(ctx, oracle_only=False):
     ctx.rule = RULE
     ops, impls = [], []
-    for stream, inp in cases(ctx):
+    del EXTEND_TYPES_FAILED[:]
+    all_cases = cases(ctx)
+    for inp_t, res_t in EXTEND_TYPES_FAILED:
+        ctx.fail("extend_types raised %s while an explicit-offsets case was prepared" % res_t.get("err"), inp_t, observed=res_t)
+    for stream, inp in all_cases:
         r = check_extend(ctx, stream, inp)
         ops.append({k: v for k, v in inp.items() if k not in ("via", "a0", "strfields", "a_build", "b_build")})
+        impls.append(r)
+    # (W) public spellings of offsets and identity map
+    for mode, inp in api_cases(ctx):
+        r, side = _extend_api(inp["a"], inp["b"], inp["offsets"], inp["map"], inp["spell"])
+        bad, known = judge_api(inp, r, side)
+        ctx.case(inp, nontrivial=(mode != "plain"))
+        ctx.count("stream:W:" + mode)
+        if inp["offsets"] is not None and len(inp["offsets"]) == 4:
+            ctx.count("W:offsets-of-4" + ("+impropers" if inp["b"]["terms"]["improper"] else ""))
+        if bad:
+            ctx.fail("public spelling (%s; %s): %s" % (mode, ", ".join("%s=%s" % kv for kv in sorted(inp["spell"].items())), bad),
+                     inp, observed=r)
+        if known:
+            ctx.count("known:" + MISALIGNED)
+            ctx.fail(known, inp, observed=r, tags=[MISALIGNED])
+        ops.append({k: v for k, v in inp.items() if k != "spell"})
         impls.append(r)
     # (Z) zero-atom structures
     for stream, inp in zero_atom_cases(ctx):
@@ -818,6 +955,10 @@ def search(ctx):
 
 def replay(ctx, rec):
     inp = rec["input"]
+    if inp["op"] == "extend_api":
+        r, side = _extend_api(inp["a"], inp["b"], inp["offsets"], inp["map"], inp.get("spell", {}))
+        bad, known = judge_api(inp, r, side)
+        return bad is None and known is None
     if inp["op"] == "extend_types":
         return oracle_extend_types(inp["a"], inp["b"], _extend_types(inp["a"], inp["b"])) is None
     if inp["op"] == "extend_twice":
